@@ -15,6 +15,8 @@ fn main() {
         "i54_order" => ob_i54_order(s(1), s(2)),
         "u53_deserialize" => ob_u53_deserialize(u(1)),
         "i54_deserialize" => ob_i54_deserialize(s(1)),
+        "u53_deserialize_f64" => ob_u53_deserialize_f64(u(1)),
+        "i54_deserialize_f64" => ob_i54_deserialize_f64(u(1)),
         "u53_serialize" => ob_u53_serialize(u(1)),
         "i54_serialize" => ob_i54_serialize(s(1)),
         "limits" => ob_limits(),
